@@ -700,7 +700,11 @@ def interp_2d(chk, drv):
         W = np.array(spl.coeffs)
         x1 = np.asarray(s1.basis.greville, dtype=float)
         x2 = np.asarray(s2.basis.greville, dtype=float)
-        ev = np.array([[spl.eval(float(a), float(b)) for b in x2] for a in x1])
+        try:
+            ev = np.array([[spl.eval(float(a), float(b)) for b in x2] for a in x1])
+        except Exception as e:  # noqa: BLE001
+            chk.fail('C08:2d-eval-raises', 'evaluating the 2-D interpolant at its interpolation points raised %s: %s' % (type(e).__name__, e), case)
+            continue
         if not all_finite(W, ev, x1, x2):
             chk.fail('C08:non-finite', '2-D interpolation produced non-finite coefficients / values', case)
             continue
@@ -780,16 +784,21 @@ def reuse_sequences(chk):
         cplx = (not per) and rng.random() < 0.3
         dtype = complex if cplx else float
         mask = np.array([rng.random() < 0.5 for _ in range(sp.nb)])
-        seq = [gen_data(rng, sp.nb, 'normal'), np.zeros(sp.nb), gen_data(rng, sp.nb, 'normal') * mask, np.zeros(sp.nb)]
+        # also badly scaled data (interpolation is linear: the same relative accuracy at every magnitude)
+        seq = [gen_data(rng, sp.nb, 'normal'), np.zeros(sp.nb), gen_data(rng, sp.nb, 'normal') * mask, np.zeros(sp.nb),
+               gen_data(rng, sp.nb, 'normal') * 2.0 ** -rng.randint(60, 200), gen_data(rng, sp.nb, 'normal') * 2.0 ** rng.randint(60, 200)]
         xs = np.asarray(sp.basis.greville, dtype=float)
         try:
             itp = SplineInterpolator1D(sp.basis, dtype) if cplx else SplineInterpolator1D(sp.basis)
             spl = Spline1D(sp.basis, dtype) if cplx else Spline1D(sp.basis)
             for k, u in enumerate(seq):
                 u = u.astype(dtype) * ((1 + 0.5j) if cplx else 1)
+                if k in (1, 2):
+                    # a query between two interpolations: asking for the quadrature weights may not change what the interpolator does
+                    itp.get_quadrature_coefficients()
                 itp.compute_interpolant(u, spl)
                 vals = np.array([spl.eval(float(x)) for x in xs])
-                scale = max(1.0, float(np.abs(u).max()))
+                scale = float(np.abs(u).max())
                 if not np.all(np.abs(vals - u) <= 1e-9 * scale * sp.nb):
                     chk.fail('C08:reuse-1d', 're-using a spline/interpolator: the interpolant of call %d does not take the data of that call '
                              '(e.g. zero data after non-zero data)' % k, {'space': sp.desc(), 'call': k, 'data': [complex(x) if cplx else float(x) for x in u]},
